@@ -1,4 +1,6 @@
 import Amgcl.Proofs.DistGershgorin
+import Amgcl.Proofs.DistTranspose
+import Amgcl.Proofs.DistSort
 /-!
 # C11 — distributed matrix algebra equals serial algebra for every partition
 
@@ -172,6 +174,38 @@ theorem dist_scale_eq (A : CRS K) (rp cp : List Nat) (s : K) :
 
 end scale
 
+/-! ## transpose -/
+section transpose
+variable {K : Type} [AddCommMonoid K]
+
+/-- **`dist_transpose_eq`**: `mpi::transpose` (local part transposed in place; the renumbered remote part transposed,
+shifted to global row numbers, shipped row block by row block to the owners of the columns and bucketed there by
+local column) gathered with rows by `cp` and columns by `rp` denotes the (adjoint) transpose of the assembled
+matrix — every partition pair, empty ranks included, rectangular matrices, duplicate entries. -/
+theorem dist_transpose_eq (adj : K →+ K) (A : CRS K) (rp cp : List Nat) (hA : A.WF) (hlen : rp.length = cp.length)
+    (hrows : rp.sum = A.nrows) (hcols : cp.sum = A.ncols) (i j : Nat) (hi : i < A.nrows) (hj : j < A.ncols) :
+    (assemble (distTranspose adj (split A rp cp) rp cp) rp).get j i = adj (A.get i j) :=
+  dist_transpose_get adj A rp cp ⟨hA, hlen, hrows, hcols⟩ i j (by rw [hrows]; exact hi) (by rw [hcols]; exact hj)
+
+end transpose
+
+/-! ## row sorting -/
+section sort
+variable {K : Type} [AddCommMonoid K]
+
+/-- **`dist_sort_rows_eq`**: after `mpi::sort_rows` every row of the local and of the remote part is sorted by column
+and the gathered matrix denotes the same matrix as before.  (`distSortRows (split A) = split (sortRows A)` as lists
+— stability of the insertion sort under the local/remote filtering — is not proved; see tools/checks/C11.json.) -/
+theorem dist_sort_rows_eq (Ds : List (DistMat K)) (rp cp : List Nat) (h : DistWF Ds rp cp) :
+    (∀ r i, r < rp.length →
+      (((distSortRows Ds).getD r default).loc.row i).Pairwise (fun a b => a.1 ≤ b.1) ∧
+      (((distSortRows Ds).getD r default).rem.row i).Pairwise (fun a b => a.1 ≤ b.1)) ∧
+    ∀ i j, i < rp.sum → (assemble (distSortRows Ds) cp).get i j = (assemble Ds cp).get i j :=
+  ⟨fun r i hr => distSortRows_sorted Ds r i (by rw [h.len]; exact hr),
+   fun i j hi => distSortRows_get Ds rp cp h.len h.locRows i j hi⟩
+
+end sort
+
 /-! ## Gershgorin estimate -/
 section gershgorin
 variable {K : Type} [Field K] [LinearOrder K] [IsStrictOrderedRing K]
@@ -202,6 +236,11 @@ example : concatVec (distResidual (splitVec #[7, 8, 9] [2, 0, 1]) (split exA [2,
   dist_residual_eq_serial exA [2, 0, 1] [1, 1, 1] (by decide) rfl (by decide) (by decide) _ _ (by decide) (by decide)
 
 example : DistWF (split exA [0, 3] [3, 0]) [0, 3] [3, 0] := split_wf exA _ _ (by decide) rfl (by decide) (by decide)
+
+example (i j : Nat) (hi : i < 3) (hj : j < 3) :
+    (assemble (distTranspose (AddMonoidHom.id Int) (split exA [2, 0, 1] [1, 1, 1]) [2, 0, 1] [1, 1, 1]) [2, 0, 1]).get j i
+      = exA.get i j :=
+  dist_transpose_eq (AddMonoidHom.id Int) exA [2, 0, 1] [1, 1, 1] (by decide) rfl (by decide) (by decide) i j hi hj
 
 /-- diag(1, 5) on three ranks (the last one empty): the reproducer of the missing `MPI_MAX` reduction -/
 example : distGershgorin false (split (⟨2, #[[(0, (1 : Rat))], [(1, 5)]]⟩ : CRS Rat) [1, 1, 0] [1, 1, 0])
